@@ -53,6 +53,33 @@ MULTI = [
 ]
 
 
+# ---------------------------------------------------------------- calls whose script ends the run itself
+# exit__ / exitcode__ N / halt / vmctrl__ "stop" / vmctrl__ "abort" are outside the VM model: the model runs a stand-in program with
+# the same effect on the globals (everything up to the request), the call itself is judged by the contract (0, idle afterwards) and
+# every later call of the history is compared with the model again (globals persist, nothing else does).
+ENDERS = ["exit__", "exitcode__ 3", "halt", 'vmctrl__ "stop"', 'vmctrl__ "abort"']
+
+
+def self_ending(rng):
+    k = rng.randint(1, 9)
+    e = rng.choice(ENDERS)
+    stand_in = Prog(Asg("ga", N(k)))
+    shape = rng.choice(["main", "main-nested", "spawned-sleeping-sibling", "spawned-last", "spawned-busy-caller"])
+    if shape == "main":
+        text = "ga = %d; %s; gb = 77; diag_log 78" % (k, e)
+    elif shape == "main-nested":
+        text = "ga = %d; call { if (true) then { %s; gb = 77 } }; diag_log 78" % (k, e)
+    elif shape == "spawned-sleeping-sibling":
+        text = "ga = %d; [] spawn { sleep 1; gb = 77 }; [] spawn { %s; gb = 76 }; 0" % (k, e)
+    elif shape == "spawned-last":
+        text = "ga = %d; [] spawn { sleep 2; gb = 77 }; [] spawn { sleep 1; %s }; [] spawn { sleep 3; gb = 75 }; 0" % (k, e)
+    else:
+        text = "ga = %d; [] spawn { %s }; for \"_i\" from 1 to 400 do { z = _i }; [] spawn { sleep 1; gb = 77 }; 0" % (k, e)
+        stand_in = Prog(Asg("ga", N(k)), E(Bin("do", Bin("to", Bin("from", Un("for", S("_i")), N(1)), N(150)), Code(Asg("z", Var("_i"))))))
+        stand_in = None      # how far the caller gets before the request is seen is a matter of slices: no stand-in, the history is cut here
+    return shape + ":" + e, text.encode(), stand_in
+
+
 def gen_prog(g, rng, kind):
     """program tokens of the wanted kind: ok | err | set | get"""
     if kind == "set":
@@ -77,6 +104,19 @@ class Hist:
 
     def add(self, **kw):
         self.ops.append(kw)
+
+
+def add_self_ending(h, rng, i, cd):
+    """a call that ends the run itself, a status query, and calls that read / write the globals afterwards"""
+    nm, text, stand_in = self_ending(rng)
+    o = dict(op="K", h=str(i), cd=cd, ty="s", text=text, cls="selfend", selfend=nm)
+    if stand_in is not None:
+        o["prog"] = stand_in
+    h.add(**o)
+    if rng.random() < 0.6:
+        h.add(op="S", h=str(i))       # otherwise the next call is the first thing to meet the instance
+    h.add(op="K", h=str(i), cd=cd + 1, ty="s", prog=Prog(E(Un("diag_log", Arr(Var("ga"), N(5)))), Asg("gb", N(2))), cls="ok")
+    h.add(op="K", h=str(i), cd=cd + 2, ty=rng.choice(["s", "p", "1"]), prog=Prog(E(Un("diag_log", Arr(Var("ga"), Var("gb"))))), cls="ok")
 
 
 def build_history(rng, g, thorough):
@@ -141,6 +181,9 @@ def build_history(rng, g, thorough):
             elif r < 0.47 and ty == "s" and not lim[i]:
                 nm, pr_, cl_ = rng.choice(MULTI)
                 h.add(op="K", h=str(i), cd=cd, ty=ty, prog=pr_, cls=cl_, multi=nm)
+            elif r < 0.55 and ty == "s" and not lim[i]:
+                add_self_ending(h, rng, i, cd)
+                cd += 3
             else:
                 kind = rng.choice(["gen", "gen", "safe", "err", "faulty", "set", "get"])
                 if lim[i] and kind in ("gen", "err", "faulty"):
@@ -197,6 +240,12 @@ def main(replay=None):
             h.add(op="K", h="0", cd=21, ty="s", prog=pr_, cls=cl_, multi=nm); h.add(op="S", h="0")
             h.add(op="K", h="0", cd=22, ty="s", prog=Prog(E(Un("diag_log", Arr(Var("late"), Var("z"))))), cls="run"); h.add(op="D", h="0")
             hists.append(("multi:" + nm, h))
+        for _ in range(40 if thorough else 12):
+            h = Hist(); h.add(op="C", user=8, mr=0)
+            add_self_ending(h, rng, 0, 31)
+            add_self_ending(h, rng, 0, 41)
+            h.add(op="S", h="0"); h.add(op="D", h="0")
+            hists.append(("selfend", h))
         for _ in range(2500 if thorough else 260):
             hists.append(("random", build_history(rng, g, thorough)))
 
@@ -252,12 +301,12 @@ def main(replay=None):
                     hops.append("K%s:%d:%s:%s:%s" % (o["h"], o["cd"], hx(o["ty"]), hx(buf), ln))
                 if o.get("cls") == "invalid-handle":
                     fr = "F-"
-                elif o.get("cls") in ("opaque", "asm-finding"):
+                elif o.get("cls") in ("opaque", "asm-finding") or (o.get("cls") == "selfend" and o.get("prog") is None):
                     fr = None
                 else:
                     fr, found = front(o)
                     o["probe"] = found
-                    want = {"err": "ok", "endless": "ok", "run": "ok"}.get(o["cls"], o["cls"])
+                    want = {"err": "ok", "endless": "ok", "run": "ok", "selfend": "ok"}.get(o["cls"], o["cls"])
                     if fr is None or found != want:
                         skip = "generator: a text of class %s was classified %s by the implementation's own front end" % (o["cls"], found)
                 if fr is None:
@@ -349,6 +398,8 @@ def main(replay=None):
                     want = [-1]
                 elif cls in ("opaque", "asm-finding"):
                     want = [0, -2, -3, -6]
+                elif cls == "selfend":
+                    want = [0]        # the script asked for the end of the run: no runtime error, nothing failed
                 elif o["op"] == "K" and o["ty"] not in TY and cls != "ppfail":
                     want = [-5]
                 elif o["op"] == "K" and o["ty"] == "p" and cls != "ppfail":
@@ -400,6 +451,8 @@ def main(replay=None):
                     run.violation("the model left the modelled fragment on a generated history (machinery)", dict(rep, at=k, broken="api_driver / generator"), found_input=False)
                     bad = True
                     break
+                if o.get("cls") == "selfend":
+                    mrecs = recs          # stand-in program on the model side: only the return code is compared for this call
                 if str(ret) != mret or [tuple(x) for x in recs] != [tuple(x) for x in mrecs]:
                     aret, arecs = ap[k] if k < len(ap) else (None, None)
                     if arecs is not None and str(ret) == aret and [tuple(x) for x in recs] == [tuple(x) for x in arecs]:
